@@ -793,6 +793,7 @@ func main() {
 	nbatch := flag.Int("nbatch", 150, "systematically enumerated critical-section batches to run (0 = all)")
 	sthreads := flag.Int("sthreads", 16, "goroutines of a heavy stress run")
 	sops := flag.Int("sops", 1200, "operations per goroutine of a heavy stress run")
+	nretain := flag.Int("nretain", 0, "retention probes (heap kept per key after acquire/release of many distinct keys)")
 	shardedOnly := flag.Bool("sharded", false, "sharded variants only (used by C17)")
 	nlong := flag.Int("nlong", 0, "plans with long runs of acquire/release cycles around counter widths")
 	npingpong := flag.Int("npingpong", 0, "hand-offs of the two-writer ping-pong plan (0: none)")
@@ -851,6 +852,9 @@ func main() {
 	}
 	for i := 0; i < *nsim && simStuck < 3; i++ {
 		runSim(sw, rng, variants[i%3], []int{1, 2, 3, 4, 10, hugeSpec}[rng.Intn(6)], shardsL[rng.Intn(4)])
+	}
+	for i := 0; i < *nretain; i++ {
+		runRetain(sw, rng, variants[(i+int(*seed))%3], []int{1, 2, 3}[rng.Intn(3)], shardsL[rng.Intn(4)], 40000)
 	}
 	sw.Close()
 	fmt.Printf("step_events=%d stress_events=%d batches_enumerated=%d\n", w.N(), sw.N(), nb)
